@@ -13,6 +13,9 @@ EXTREME_BASES = [
     A._b(soil="custom3", iwc="SAT", word="wet", dz="nonuni", crop="potato.2"),
     A._b(soil="SandyLoam", iwc="WP", gw="0.3", dz="deep30", word="dry"),
     A._b(soil="Paddy", iwc="SAT", gw="0.8", dz="deep30", word="wet", field="bunds200", crop="rice.2"),
+    # net irrigation on layers of contrasting texture with roots past the layer boundary
+    A._b(soil="sandoverclay", iwc="FC", irr="net80", word="dry", crop="maize.2"),
+    A._b(soil="clayoversand", iwc="FC", irr="net100", word="dry", crop="cotton.2"),
 ]
 
 NONTRIVIAL = ['air_dry_compartment', 'saturated_compartment', 'ponded_state', 'pond_above_half_bund_height']
@@ -34,8 +37,8 @@ def run(scn):
 def describe(tier):
     d = 1 if tier == "quick" else 2
     return {
-        "rule": "C01's configuration/weather set plus 5 extreme bases (3-season drought with off-season on air-dry-prone sand, SAT starts "
-                "under the wet word with bunds filled above their height, low-conductivity layered soil, tables at 0.3/0.8 m) and their "
+        "rule": "C01's configuration/weather set plus 7 extreme bases (3-season drought with off-season on air-dry-prone sand, SAT starts "
+                "under the wet word with bunds filled above their height, low-conductivity layered soil, tables at 0.3/0.8 m, net irrigation on sand-over-clay / clay-over-sand) and their "
                 "single deviations; theta in [air-dry, saturation] per compartment (layer values of the initialised profile), "
                 "0 <= ponding <= bund height (0 without bunds) and Wr >= 0 are evaluated on the initial state and after every transition. "
                 "Non-trivial = at least one extreme-regime witness hit.",
